@@ -139,7 +139,23 @@ one_emit(int e, int serial, int mem16, uint16_t seq, uint32_t addr, size_t n, in
     }
     if (e <= E_WR16 && A.p.session.sequence != (uint16_t)(seq + 1))
         vh_fail("sequence", key, "%s: session sequence %u after a request", ctx, A.p.session.sequence);
-    /* round trip through the peer's receiver */
+    /* round trip through the peer's receiver; every third time the peer's line carried noise first that ended in
+     * an illegal escape sequence with nothing behind it (the line dropped in the middle of a broken frame) - that
+     * receive fails, the emission that follows must be taken as if nothing had happened */
+    static unsigned emitted;
+    if (serial && (++emitted % 3u) == 0) {
+        static const unsigned char noise[] = { 0x21, 0x00, 0x7f, 0xdb, 0x41 };
+        rp_feed(&B, noise, sizeof noise);
+        B.out_n = 0;
+        RPMaybeFrame nf;
+        int nrc = regp_recv(&B.p, &nf);
+        regp_process(&B.p, &nf);
+        regp_free(&B.p, nf.frame);
+        rp_ledger_gc(&B);
+        if (nrc >= 0)
+            vh_fail("noise-accepted", key, "%s: noise ending in an illegal escape: regp_recv rc=%d", ctx, nrc);
+        VH_COUNT("emission received behind line noise that ended in an illegal escape");
+    }
     rp_feed(&B, A.out, A.out_n);
     B.out_n = 0;
     RPMaybeFrame mf;
@@ -351,6 +367,7 @@ harness_run(void)
     for (uint64_t i = 0; i < 12; i++)
         vh_unit("fit", i, u_fit, NULL);
     vh_require("emission that exactly fills the receiver's frame block");
+    vh_require("emission received behind line noise that ended in an illegal escape");
     vh_require("sequence-number sweep of an entry point");
     vh_require("emission whose header checksum is 0000");
     vh_require("emission with 65534 or more payload octets");
